@@ -85,7 +85,9 @@ CLAIMS = {
     "C10": ("proof", "Lemma-level proof. notify_from_exception maps every class of the exception lattice to exactly the matching "
             "notification kind; a sync step lets a fault of any class escape only as a back-off request and defers the entry by one; "
             "the service loop survives every exception of the work function and waits min(max, max(b*mult, min)); pre_sync re-reads "
-            "both sides even while in back-off; punting defers by a bounded amount. Convergence after the faults stop is NOT proved.",
+            "both sides even while in back-off; punting defers by a bounded amount; the download cache file is named after the path and "
+            "the current content hash, so a download cached before a fault is never re-used for newer content. Convergence after the "
+            "faults stop is NOT proved.",
             "Provider API = arbitrary implementation raising any cloud exception; EventManager.do's fault classification (temporary / disconnected / rejected cursor -> reset + walk / token) is under contract with _do_unsafe as an arbitrary callee."),
     "C11": ("proof", "Proof for the core writers on their real bodies: assigning an oid keeps 'oid slot -> entry' and the pending set exact "
             "for the entry, never loses a pending change of an ousted entry, and marks every changed entry dirty; setting a change "
@@ -96,8 +98,10 @@ CLAIMS = {
     "C12": ("proof", "Proof of the path side (unbounded strings, all provider conventions and mixed pairs): translate decides 'inside the "
             "root' with the source provider's rules, yields nothing outside (incl. prefix siblings, lemma prefix_sibling_not_inside) "
             "and joins inside the destination root; lemma-level proof of the engine side: a path the translation declines is left "
-            "alone, an entry moved out of the root is deleted on the other side only if it had been synced; un-request touches the "
-            "local provider only. That ids handled by the engine denote objects inside the roots is NOT proved.",
+            "alone, an entry moved out of the root is deleted on the other side only if it had been synced; the 'both sides moved it' "
+            "test that splits an entry instead of mirroring (path_conflict) is stated independently of its body, folders counting "
+            "like files; an irrelevant entry is revived only when the provider reports a path the translation accepts; un-request "
+            "touches the local provider only. That ids handled by the engine denote objects inside the roots is NOT proved.",
             "normalize_path is an opaque deterministic function; nps replaced by its proved contract."),
     "C13": ("proof", "Proof for strings of unbounded length and all 12 provider path conventions (quick tier: 4 representative ones): "
             "normalize_path_separators contract, split/dirname/basename, join totality, joined-is-inside with the same relative part, "
@@ -140,7 +144,8 @@ CLAIMS = {
     "C18": ("proof", "Proof. Back-off formula by induction over the failure count (base and step over reals); every iteration of "
             "Runnable.run from an arbitrary loop state: no exception of the work function escapes, the wait is the back-off law "
             "(reset after a productive success, kept after a no-op), cleanup runs exactly once iff the stop was final, the service "
-            "reports stopped; a service not asked to stop calls its work function; notification kinds. Stop/start races between threads are NOT claimed.",
+            "reports stopped; a service not asked to stop calls its work function; stop() raises the flags, wakes the loop and joins the "
+            "service thread exactly when there is one and the caller asked to wait (sequential core of stop); notification kinds. Stop/start races between threads are NOT claimed.",
             "The loop is verified by arbitrary-iteration abstraction with an inferred frame; the work function is an arbitrary callee with five outcome kinds."),
     "C19": ("exploration", "Bounded stand-in only: the coherence invariant (tree shape, id map = reachable nodes with ids, path<->id "
             "inverse) is an inductive predicate over a recursive structure that pyvc's first-order obligations cannot express; all "
